@@ -206,6 +206,38 @@ class World(BaseWorld):
                                      "fp": repr(g.productions)}
         return "ok %d productions" % len(prods)
 
+    def op_cfg_churn(self, op):
+        """Many short-lived grammars, one after the other: each is built, asked for a few sentences and
+        dropped, so that later grammars are allocated where earlier ones lived."""
+        import random as _random
+        import gc
+        from discopy.monoidal import Ty
+        rng = _random.Random(op["seed"])
+        cfgmod = self.cfgmod
+        for k in range(op["n"]):
+            symbols = ["S", "A", "B"][:rng.randint(1, 3)]
+            prods = [cfgmod.Word("g%d_%d" % (k, j), Ty(rng.choice(symbols)),
+                                 dom=Ty(*[rng.choice(symbols) for _ in range(rng.choice([0, 0, 1, 2]))]))
+                     for j in range(rng.randint(1, 5))]
+            g = cfgmod.CFG(*prods)
+            entry = {"real": g, "prods": prods, "fp": repr(g.productions)}
+            self.rnd.load([rng.getrandbits(12) for _ in range(6)])
+            try:
+                # (no line budget here: tracing costs a factor of ten and max_iter bounds the loop)
+                for sentence in g.generate(Ty(symbols[0]), 2, rng.choice([2, 4]), max_iter=6):
+                    self.check_sentence(sentence, entry, symbols[0])
+                    self.note("churn_sentences")
+            except Violation:
+                raise
+            except Exception as err:
+                raise self.vio("generate-exception", "CFG.generate raised %s: %s" % (
+                    type(err).__name__, str(err)[:200]))
+            del g, entry, prods
+            if k % 7 == 0:
+                gc.collect()
+        self.note("churn_grammars", op["n"])
+        return "ok"
+
     def op_gen_start(self, op):
         from discopy.monoidal import Ty
         g = self.grammars.get(op["grammar"])
@@ -530,13 +562,13 @@ class Driver:
     def parse_case(self):
         """words built backwards from a derivation so that most sequences parse"""
         gen = self.s["gen"]
-        target = self.rigid_ty(2)
+        target = self.rigid_ty(2) if gen.random() < 0.93 else []       # the unit type is a legal target
         wires = [list(a) for a in target]
         for _ in range(gen.randint(0, 5)):
             p = gen.randint(0, len(wires))
             a = [gen.choice("ns"), gen.choice([0, 0, 1, -1, 2])]
             wires[p:p] = [a, [a[0], a[1] + 1]]
-        if gen.random() < 0.2:        # perturb: most of these are ungrammatical
+        if wires and gen.random() < 0.2:        # perturb: most of these are ungrammatical
             wires[gen.randrange(len(wires))][1] += gen.choice([1, -1])
         words, k = [], 0
         while wires:
@@ -566,7 +598,7 @@ class Driver:
                 if gen.random() < 0.7:
                     vocab.append({"name": "tgt", "ty": self.rigid_ty(1)})
                 self.nt += 1
-                tgt = vocab[-1]["ty"] if gen.random() < 0.7 else self.rigid_ty(1)
+                tgt = vocab[-1]["ty"] if gen.random() < 0.7 else (self.rigid_ty(1) if gen.random() < 0.8 else [])
                 return {"op": "brute_start", "task": "t%d" % (self.nt - 1), "vocab": vocab, "target": tgt}
             words, target = self.parse_case()
             op = {"op": "parse", "words": words, "target": target}
@@ -587,6 +619,8 @@ class Driver:
     def next_cfg(self, world):
         sched, gen, fault, cfg = self.s["sched"], self.s["gen"], self.s["fault"], self.cfg
         live = sorted(t for t, v in world.tasks.items() if v["status"] == "live" and v.get("kind") != "brute")
+        if world.grammars and sched.random() < 0.025:
+            return {"op": "cfg_churn", "n": sched.choice([30, 80, 150]), "seed": gen.getrandbits(30)}
         if not world.grammars or (len(world.grammars) < 2 and sched.random() < 0.1):
             self.ng += 1
             return {"op": "cfg_new", "slot": "g%d" % (self.ng - 1), "productions": self.grammar()}
